@@ -116,7 +116,9 @@ ConvWhy(o, op, a, res) ==
          [] OTHER ->   \* ktensor / ttensor / sum copies
               IF res # o THEN "copy-differs" ELSE "ok"
 
-EventWhy(o, ev) == ConvWhy(o, ev.op, ev.args, ev.ret)
+\* conversions and queries return new values: the harness reports an operand whose arrays differ after the call
+EventWhy(o, ev) == IF ev.ret.kind = "operand-changed" THEN "operand-changed-by-the-call"
+                   ELSE ConvWhy(o, ev.op, ev.args, ev.ret)
 
 ---------------------------------------------------------------------------
 \* actions
